@@ -131,6 +131,7 @@ def run_step(ctx, res, stream, sc, mode, verbose, items, pre_raw, clauses, case_
     slot = 512 if fl == "sd" else 256
     if len(raw) != 4 * 1280 * slot:
         V("geometry", "image length is not 4 x 80 x 16 sectors", len(raw))
+        return raw
     elif fl == "sd" and any(raw[k * 512 + 256:(k + 1) * 512] != b"\xff" * 256 for k in range(0, 5120, 37)):
         V("geometry", "upper half of an SDDrive slot is not all FF", None)
     # consistency by the independent checker
